@@ -527,6 +527,39 @@ class Gen:
         self.emit("end")
         self.count("if")
 
+    # ---- variables the analyzer may have inferred a range for (numeric-for control variables, locals initialised
+    #      from a non-negative constant): they are ordinary variables, assigned a negative value here and then
+    #      used with CONSTANT right operands in the operators whose emitted form depends on operand ranges ----
+    def range_probe(self, v):
+        r = self.rng
+        k = r.random()
+        if k < 0.45:
+            self.emit("%s = %s - %d" % (v, v, r.choice([1, 2, 3, 4, 7, 9, 13, 20])))
+        elif k < 0.6:
+            self.emit("%s = (- %s) - 1" % (v, v))
+        elif k < 0.75:
+            self.emit("%s = %s * (-3)" % (v, v))
+        elif k < 0.9:
+            w = self.pick_var("int", pure_only=True)
+            self.emit("%s = %s - (%s %% 7) - 1" % (v, v, w) if w and w != v else "%s = %s - 5" % (v, v))
+        # (else: left as it is - the non-negative case)
+        d1, d2 = r.choice([1, 2, 3, 4, 5, 7, 8, 10, 16]), r.choice([2, 3, 5, 6, 9])
+        forms = ["%s // %d" % (v, d1), "%s %% %d" % (v, d1), "%s >> %d" % (v, r.choice([0, 1, 3, 31, 63])),
+                 "%s << %d" % (v, r.choice([0, 1, 5])), "%s < %d" % (v, r.choice([0, 1, 5])), "%s >= 0" % v,
+                 "(%s + 1) // %d" % (v, d2), "(- %s) %% %d" % (v, d2), "%s // %d %% %d" % (v, d1, d2),
+                 "%d // (%s | 1)" % (r.choice([7, 100]), v), "%s / %d" % (v, d1)]
+        r.shuffle(forms)
+        self.emit("print(%s)" % ", ".join(forms[:r.randint(3, 6)]))
+        self.count("range-probe")
+
+    def stmt_range_local(self):
+        r = self.rng
+        v = self.fresh("n")
+        self.emit("local %s: integer = %d" % (v, r.choice([0, 1, 2, 6, 10, 255])), None)
+        self.l[-1] = self.n[-1].replace(": integer", "")
+        self.scopes[-1].append((v, "int", False))
+        self.range_probe(v)
+
     def stmt_for(self):
         r = self.rng
         i = self.fresh("i")
@@ -550,6 +583,9 @@ class Gen:
         self.loop_depth += 1
         use_continue = r.random() < 0.25
         lbl = self.fresh("next")
+        if r.random() < 0.4:
+            # the control variable is an ordinary local of the body (Lua and Nelua iterate on a hidden copy)
+            self.range_probe(i)
         for k in range(r.randint(1, 3)):
             self.stmt()
             if k == 0 and r.random() < 0.3:
@@ -646,6 +682,8 @@ class Gen:
             self.stmt_call()
         elif r < 0.96 and getattr(self, "indirect", None):
             self.stmt_indirect()
+        elif r < 0.975:
+            self.stmt_range_local()
         else:
             self.emit("do")
             self.block(self.rng.randint(1, 3))
